@@ -71,6 +71,23 @@ Corollary C10_late_model_names : forall k ev mc ini hs m,
   has_helper HTrig (o_helpers (w_obj w m)) = true /\ has_helper HMayTrig (o_helpers (w_obj w m)) = true.
 Proof. exact late_model_names. Qed.
 
+(* ... remove_transition included: a trigger whose transitions were all removed and that is declared again is
+   bound on every registered model, whether it was added before the removal or after it (an instance of
+   C10_late_model / C10_dispatch; hierarchical class flags): *)
+Example C10_trigger_rebound :
+  let k := mkClass false false true false QNo in
+  let ev := fun (_ _ : nat) => mkReply true None [] in
+  let t := mkTrans 0 (Some 0) [] [] [] [] in
+  let w := run k ev (init_world mc1 0)
+               [OAddModel 0 None; OAddTransition 5 t; ORemoveTransition 5 None None; OAddModel 1 None;
+                OAddTransition 5 t] in
+  has_helper (HEv 5) (o_helpers (w_obj w 0)) = true /\ has_helper (HMay 5) (o_helpers (w_obj w 0)) = true /\
+  has_helper (HEv 5) (o_helpers (w_obj w 1)) = true /\ has_helper (HMay 5) (o_helpers (w_obj w 1)) = true /\
+  has_helper (HEv 5) (o_helpers (w_obj (run k ev (init_world mc1 0)
+               [OAddModel 0 None; OAddTransition 5 t; ORemoveTransition 5 None None]) 0)) = false /\
+  match step k ev w (ODispatch 5 7) with (bs, r, _) => map b_model bs = [0; 1] /\ r = inr (Some true) end.
+Proof. exact trigger_rebound_witness. Qed.
+
 (* ADD TWICE: add_model of a registered model changes nothing — models, every object, lock map, graph
    table, queues, machine, even the callback counter — and returns None, in EVERY class (the graph classes
    skip models that were registered before the call; /repo fix D34). *)
@@ -247,6 +264,7 @@ Print Assumptions C10_frame.
 Print Assumptions C10_dispatch.
 Print Assumptions C10_late_model.
 Print Assumptions C10_late_model_names.
+Print Assumptions C10_trigger_rebound.
 Print Assumptions C10_add_twice.
 Print Assumptions C10_copy.
 Print Assumptions C10_features_per_model.
